@@ -613,10 +613,55 @@ func (t UnicodeVariations) GetGlyphVariant(r, selector rune) (GID, uint8) {
 }
 
 // Handle legacy font with remap
-// TODO: the Iter() and RuneRanges() method does not include the additional mapping
+
+// remapIter enumerates the runes of the wrapped cmap, then the runes
+// that [Lookup] only finds through the remapping.
+type remapIter struct {
+	base  CmapIter        // nil when exhausted
+	cmap  Cmap            // the wrapped cmap
+	remap func(rune) rune // returns 0 for runes with no remapping
+	next  rune            // next candidate rune
+	last  rune            // last candidate rune (included)
+
+	r       rune // valid if hasNext is true
+	g       GID
+	hasNext bool
+}
+
+func (it *remapIter) Next() bool {
+	if it.base != nil {
+		if it.base.Next() {
+			return true
+		}
+		it.base = nil
+	}
+	for ; !it.hasNext && it.next <= it.last; it.next++ {
+		if _, ok := it.cmap.Lookup(it.next); ok { // already enumerated
+			continue
+		}
+		if mapped := it.remap(it.next); mapped != 0 {
+			if g, ok := it.cmap.Lookup(mapped); ok {
+				it.r, it.g, it.hasNext = it.next, g, true
+			}
+		}
+	}
+	return it.hasNext
+}
+
+func (it *remapIter) Char() (rune, GID) {
+	if it.base != nil {
+		return it.base.Char()
+	}
+	it.hasNext = false
+	return it.r, it.g
+}
 
 type remaperSymbol struct {
 	Cmap
+}
+
+func (rs remaperSymbol) Iter() CmapIter {
+	return &remapIter{base: rs.Cmap.Iter(), cmap: rs.Cmap, remap: func(r rune) rune { return 0xF000 + r }, last: 0xFF}
 }
 
 func (rs remaperSymbol) Lookup(r rune) (GID, bool) {
@@ -642,6 +687,10 @@ type remaperPUASimp struct {
 	Cmap
 }
 
+func (rs remaperPUASimp) Iter() CmapIter {
+	return &remapIter{base: rs.Cmap.Iter(), cmap: rs.Cmap, remap: arabicPUASimpMap, last: 0xFFFF}
+}
+
 func (rs remaperPUASimp) Lookup(r rune) (GID, bool) {
 	// try without map first
 	if g, ok := rs.Cmap.Lookup(r); ok {
@@ -657,6 +706,10 @@ func (rs remaperPUASimp) Lookup(r rune) (GID, bool) {
 
 type remaperPUATrad struct {
 	Cmap
+}
+
+func (rs remaperPUATrad) Iter() CmapIter {
+	return &remapIter{base: rs.Cmap.Iter(), cmap: rs.Cmap, remap: arabicPUATradMap, last: 0xFFFF}
 }
 
 func (rs remaperPUATrad) Lookup(r rune) (GID, bool) {
